@@ -37,6 +37,7 @@ def configs(tier, seed):
                     'normalize': rng.random() < 0.5, 'coords': rng.choice(['default', 'default', 'supplied']),
                     'weighted': rng.random() < 0.3, 'forder': rng.random() < 0.3})
     out.append({'mask': 'circle', 'n': 7, 'modes': [4], 'normalize': True, 'coords': 'default'})
+    out += [{'mask': mk, 'n': 6, 'modes': [mo], 'normalize': nz, 'coords': 'default'} for mk in ('circle', 'offcentre') for mo in (2, 4, 6) for nz in (True, False)]
     out.append({'mask': 'circle', 'n': 6, 'modes': [2, 3], 'normalize': True, 'coords': 'default'})
     out.append({'mask': 'circle', 'n': 7, 'modes': [3, 1, 2], 'normalize': False, 'coords': 'supplied'})
     return out, len(out), False
@@ -80,6 +81,11 @@ def run(W, cfg):
     fit_b = Z.zernike_fit(opd, mask, modes, normalize=cfg['normalize'], **kw)
     for k in range(K):
         W.ob_close(f'first setting once more: fit(compose(c))[{k}] = c[{k}]', fit_b[k], c[k], tol)
+    if K == 1:
+        # a single mode given as a bare integer means that mode, not "modes 1..k"
+        fs = Z.zernike_fit(opd, mask, int(modes[0]), normalize=cfg['normalize'], **kw)
+        W.ob_true('scalar mode index: one coefficient', len(rnp.atleast_1d(W.concrete(fs)) if not W.sym else fs) == 1)
+        W.ob_close('scalar mode index: fit(compose(c)) = c', fs[0], c[0], tol)
     # remove: arbitrary OPD on the mask
     cells = [(r, cc) for r in range(mask.shape[0]) for cc in range(mask.shape[1]) if mask[r, cc]]
     O = W.zeros(mask.shape)
@@ -100,6 +106,16 @@ def run(W, cfg):
         res2 = Z.zernike_remove(res, mask, modes, **kw)
         for (r, cc) in cells[:6]:
             W.ob_close(f'remove idempotent [{r},{cc}]', res2[r, cc], res[r, cc], tol2)
+        if K == 1:
+            rs = Z.zernike_remove(O, mask, int(modes[0]), **kw)
+            for (r, cc) in cells[:6]:
+                W.ob_close(f'scalar mode index: remove(opd, k) = remove(opd, [k]) [{r},{cc}]', rs[r, cc], res[r, cc], tol2)
+        # an OPD held as integers (e.g. nanometre counts): the same residual as for the same values held as floats
+        Oi = rnp.array([[((5 * r * r + 3 * cc2 + r * cc2) % 9 - 4) * int(bool(mask[r, cc2])) for cc2 in range(mask.shape[1])] for r in range(mask.shape[0])])
+        ri = W.concrete(Z.zernike_remove(Oi, mask, modes, **kw)) if not W.sym else Z.zernike_remove(Oi, mask, modes, **kw)
+        rf = Z.zernike_remove(Oi.astype(float), mask, modes, **kw)
+        for (r, cc) in cells[:8]:
+            W.ob_close(f'integer-typed OPD: same residual as the float OPD [{r},{cc}]', ri[r, cc] * 1.0, rf[r, cc] * 1.0, 1e-9)
         gone = Z.zernike_remove(opd, mask, modes, **kw)
         for (r, cc) in cells[:6]:
             W.ob_close(f'remove(compose(c)) = 0 [{r},{cc}]', gone[r, cc], 0, tol)
